@@ -1,6 +1,7 @@
 import SlotVerif.Model.Parse
 import SlotVerif.Proofs.ParseRT
 import SlotVerif.Proofs.TokenizeRT
+import SlotVerif.Props.C17
 /-!
 # C18 — Printing and parsing round-trip; parsing never panics
 
@@ -222,6 +223,13 @@ example : RT.SlotOK {} 4 := by
   refine ⟨⟨['1'], by decide, ?_, by decide, by decide⟩⟩
   have : Slot.classify ['1'] = .num 1 := by decide
   simp [Slot.named, this]
+
+/-- the slot hypothesis of the round trip holds for **every slot issued so far in any history** of the slot table
+(C17 `display_named`), as soon as its printed name is one identifier for the tokenizer -/
+theorem slotOK_of_issued (ops : List Slot.C17.Op) (c : Nat) (txt : List Char)
+    (hc : c ∈ (Slot.C17.run {} ops).issued) (hd : Slot.display (Slot.C17.run {} ops).tab c = some txt)
+    (hne : txt ≠ []) (hid : ∀ x ∈ txt, identChar x = true) : RT.SlotOK (Slot.C17.run {} ops).tab c :=
+  ⟨⟨txt, hd, Slot.C17.display_named ops c txt hc hd, hne, hid⟩⟩
 
 /-- the pattern of the token-level example, with the numeric slot `$1` -/
 def exPat : Pat :=
